@@ -211,9 +211,9 @@ pub fn agg_step<const P: u8>(cfg: &Cfg) {
             }
         }
     }
-    kani::cover!(w.count() == 3 && any_due);
-    kani::cover!(w.count() == 3 && !any_due);
-    kani::cover!(w.count() == 2 && !any_due);
+    kani::cover!(w.count() == cfg.max_present && any_due);
+    kani::cover!(w.count() == cfg.max_present && !any_due);
+    kani::cover!(w.count() == 1 && !any_due);
 }
 
 // ------------------------------------------------------------------ handle_stun
